@@ -8,6 +8,7 @@ import (
 	"fmt"
 	"io"
 	"io/fs"
+	"reflect"
 	"sort"
 	"strconv"
 	"strings"
@@ -57,6 +58,8 @@ type subSlot struct {
 type snap struct {
 	v   []string // VerifDump of the base (internal node graph: tree, bytes, modes, owners, link counts)
 	api []string // one Lstat line per entry through the public API of the base, as administrator: type, mode, owner, mtime, size, link count
+	ans []string // what the base answers to its own readers about every entry, see answers
+	who string   // the user of the base the answers were given to (a view-state call can change it)
 }
 
 type sys struct {
@@ -78,6 +81,7 @@ type sys struct {
 	digestOf   snap
 	haveDigest bool
 
+	lending    map[string]bool // see lends
 	probes     []int           // the operations of the alphabet asked around a base-side letter (isProbe)
 	asked      map[string]bool // (state, base-side letter) pairs whose questions were asked in this process
 	pendingErr error           // harness problem met inside a step: the next Reset reports it
@@ -99,7 +103,8 @@ func (s *sys) Key() string           { return s.lastKey }
 // directory and a file.
 //
 // dump = false: the snapshot is not taken (and the times are not checked).
-func build(name string, dump bool) (hooked, snap, error) {
+// The tier decides how much the snapshot asks (answers).
+func build(name, tier string, dump bool) (hooked, snap, error) {
 	kind, win := sysKind(name)
 	sp := func(pth string) string { return spell(win, pth) }
 	root := sp("/")
@@ -193,6 +198,7 @@ func build(name string, dump bool) (hooked, snap, error) {
 		// (the time of a symbolic link itself cannot be set through the API)
 		sn.v = v.VerifDump()
 		sn.api = apiDump(v, sn.v)
+		sn.ans, sn.who = answers(v, sn.v, tier == "thorough"), userName(v)
 		fixed := fmt.Sprintf(" t%d ", fsx.FixedTime.UnixNano())
 
 		for _, l := range sn.api {
@@ -310,6 +316,121 @@ func apiDump(v hooked, lines []string) []string {
 	return out
 }
 
+// answers is the third part of the snapshot: what the base ANSWERS, asked
+// directly (never through the wrapper) by every read-only method that reports
+// the tree, about every entry of the internal dump.
+//
+// Lesson: "the underlying file system is identical before and after" is judged
+// by what its users get from it, and a file system holds more than its node
+// graph: whatever it keeps to answer faster (the sorted names of a directory,
+// a listing, a resolved path) is state too, reached by some of its read
+// methods and not by others. A dump that walks the nodes, or asks Lstat alone,
+// is blind to all of it: a listing kept by a directory and rewritten through a
+// slice the wrapper handed out leaves every node as it was, while a handle of
+// the base lists names that do not exist and Glob returns paths nobody can
+// open. So the listing methods are asked, each its own way. Every tier: a handle
+// of every directory read at once by Readdirnames and another by ReadDir (the
+// two primitives: each has its own source inside MemFS and OrefaFS). Thorough
+// also: the handles read in pieces of one entry, and the methods that are
+// built on the primitives or repeat the internal dump - ReadDir of the file
+// system, Glob, ReadFile of every file, Readlink of every link. The answers
+// must be the same before and after every call made through the wrapper, as
+// long as they are given to the same user (who).
+func answers(v hooked, lines []string, thorough bool) []string {
+	sep := string(v.PathSeparator())
+	out := make([]string, 0, 6*len(lines))
+
+	errOf := func(err error) string {
+		if err == nil {
+			return ""
+		}
+
+		return " !" + fsx.ErrKind(err)
+	}
+
+	// a handle of the directory, read at once (n <= 0) or in pieces of n entries
+	handle := func(pth, what string, n int, read func(f avfs.File, n int) ([]string, error)) {
+		b := append(make([]byte, 0, len(pth)+64), pth...)
+		b = append(append(b, ' '), what...)
+
+		f, err := v.OpenFile(pth, 0, 0) // O_RDONLY
+		if err != nil {
+			out = append(out, string(b)+" !open:"+fsx.ErrKind(err))
+
+			return
+		}
+
+		for i := 0; i < 64; i++ {
+			names, err := read(f, n)
+
+			b = append(b, " ["...)
+			b = append(b, strings.Join(names, " ")...)
+			b = append(append(b, ']'), errOf(err)...)
+
+			if n <= 0 || err != nil || len(names) == 0 {
+				break
+			}
+		}
+
+		out = append(out, string(b)+errOf(f.Close()))
+	}
+
+	entryNames := func(es []fs.DirEntry) []string {
+		names := make([]string, len(es))
+		for i, e := range es {
+			names[i] = e.Name() + fsx.TypeChar(e.Type())
+		}
+
+		return names
+	}
+
+	names := func(f avfs.File, n int) ([]string, error) { return f.Readdirnames(n) }
+	entries := func(f avfs.File, n int) ([]string, error) {
+		es, err := f.ReadDir(n)
+
+		return entryNames(es), err
+	}
+
+	for _, l := range lines {
+		pth := dumpPath(l)
+
+		_, typ, _ := strings.Cut(l, " ")
+		if i := strings.IndexByte(typ, ' '); i >= 0 {
+			typ = typ[:i]
+		}
+
+		switch {
+		case typ == "d":
+			handle(pth, "names", -1, names)
+			handle(pth, "entries", -1, entries)
+
+			if thorough {
+				handle(pth, "names-in-pieces", 1, names)
+				handle(pth, "entries-in-pieces", 1, entries)
+
+				es, err := v.ReadDir(pth)
+				out = append(out, pth+" readdir ["+strings.Join(entryNames(es), " ")+"]"+errOf(err))
+
+				pat := pth + sep + "*"
+				if isRootPath(pth) {
+					pat = pth + "*"
+				}
+
+				m, err := v.Glob(pat)
+				out = append(out, pth+" glob ["+strings.Join(m, " ")+"]"+errOf(err))
+			}
+		case typ == "f" && thorough:
+			b, err := v.ReadFile(pth)
+			out = append(out, pth+" content "+strconv.Quote(string(b))+errOf(err))
+		case typ == "l" && thorough:
+			t, err := v.Readlink(pth)
+			out = append(out, pth+" target "+strconv.Quote(t)+errOf(err))
+		}
+	}
+
+	return out
+}
+
 // isLinkLine reports whether a dump line (path, type, ...) describes a symbolic link.
 func isLinkLine(l string) bool {
 	_, rest, _ := strings.Cut(l, " ")
@@ -366,11 +487,11 @@ func (s *sys) Reset() error {
 	// the base after the first construction of every process (and by the probe)
 	cmpTwin := s.fullCheck || !s.twinChecked
 
-	if s.base, sn, err = build(s.name, true); err != nil {
+	if s.base, sn, err = build(s.name, s.tier, true); err != nil {
 		return err
 	}
 
-	if s.tw, tsn, err = build(s.name, cmpTwin); err != nil {
+	if s.tw, tsn, err = build(s.name, s.tier, cmpTwin); err != nil {
 		return err
 	}
 
@@ -380,7 +501,10 @@ func (s *sys) Reset() error {
 	s.haveSnap = false
 
 	if cmpTwin {
-		if a, b := append(append([]string{}, sn.v...), maskLinkTimes(sn.api)...), append(append([]string{}, tsn.v...), maskLinkTimes(tsn.api)...); strings.Join(a, "\n") != strings.Join(b, "\n") {
+		a := append(append(append([]string{}, sn.v...), maskLinkTimes(sn.api)...), sn.ans...)
+		b := append(append(append([]string{}, tsn.v...), maskLinkTimes(tsn.api)...), tsn.ans...)
+
+		if strings.Join(a, "\n") != strings.Join(b, "\n") {
 			return fmt.Errorf("base and twin differ after setup: %s", fsx.DiffLines(a, b))
 		}
 
@@ -398,6 +522,19 @@ func (s *sys) Reset() error {
 				return fmt.Errorf("setup: full dump of the base reports %q", l)
 			}
 		}
+
+		// the "value it has" arguments of the alphabet (held) are what the setup gave the nodes
+		// (sizes everywhere; permission bits where the base is Linux-typed)
+		for pth, h := range held {
+			fi, err := s.base.Stat(spell(s.win, pth))
+			if err != nil {
+				continue // a spelling of a view, or a node this base does not hold
+			}
+
+			if (h.size >= 0 && fi.Size() != h.size) || (h.size < 0) != fi.IsDir() || (!s.win && int64(fi.Mode().Perm()) != h.mode) {
+				return fmt.Errorf("setup: %s is %v with %d bytes, the alphabet takes it for %#o with %d bytes", pth, fi.Mode(), fi.Size(), h.mode, h.size)
+			}
+		}
 	}
 
 	s.lastSnap, s.haveSnap = sn, true
@@ -407,13 +544,72 @@ func (s *sys) Reset() error {
 }
 
 // snapshot of the base, taken directly on it (never through the wrapper).
-func (s *sys) snapshot() (sn snap, kind, msg string) {
+// ask: the snapshot holds what the base answers its own readers too (answers).
+// The thorough tier asks around every call; the quick tier around every call
+// that carries a value with reference semantics across the wrapper, in either
+// direction (lends), and around every base-side letter.
+func (s *sys) snapshot(ask bool) (sn snap, kind, msg string) {
 	kind, msg = fsx.Guard(func() {
 		sn.v = s.base.VerifDump()
 		sn.api = apiDump(s.base, sn.v)
+
+		if ask {
+			sn.ans, sn.who = answers(s.base, sn.v, s.tier == "thorough"), userName(s.base)
+		}
 	})
 
 	return
+}
+
+// askNow completes a snapshot that was taken without the answers; nothing
+// must have been done to the base since it was taken.
+func (s *sys) askNow(sn *snap) (kind, msg string) {
+	if sn.ans != nil {
+		return "", ""
+	}
+
+	return fsx.Guard(func() {
+		sn.ans, sn.who = answers(s.base, sn.v, s.tier == "thorough"), userName(s.base)
+	})
+}
+
+// lends: a value with reference semantics crosses the wrapper with this call -
+// a slice or a function among the parameters or the results of the method
+// (read from the interface type: a method added later is judged by its
+// signature). These are the calls after which the harness writes over what it
+// was given (invoke, scribbleSlice) and around which the base is asked for its
+// answers in every tier.
+func (s *sys) lends(o opDesc) bool {
+	it, key := tVFS, "vfs."+o.Method
+	if o.Recv == "f0" || o.Recv == "f1" {
+		it, key = tFile, "file."+o.Method
+	}
+
+	if l, ok := s.lending[key]; ok {
+		return l
+	}
+
+	l := false
+
+	if m, ok := it.MethodByName(o.Method); ok {
+		ref := func(t reflect.Type) bool { return t.Kind() == reflect.Slice || t.Kind() == reflect.Func }
+
+		for i := 0; i < m.Type.NumIn(); i++ {
+			l = l || ref(m.Type.In(i))
+		}
+
+		for i := 0; i < m.Type.NumOut(); i++ {
+			l = l || ref(m.Type.Out(i))
+		}
+	}
+
+	if s.lending == nil {
+		s.lending = map[string]bool{}
+	}
+
+	s.lending[key] = l
+
+	return l
 }
 
 func hash(ss ...string) string {
@@ -613,9 +809,13 @@ func stripMtime(l string) string {
 }
 
 // changeClass names what differs between two snapshots of the base:
-// new-entry | removed-entry | type | content | mode | owner | nlink | mtime | api-visible.
+// new-entry | removed-entry | type | content | mode | owner | nlink | mtime | api-visible | answers.
 func changeClass(a, b snap) (class, diff string) {
-	if equalLines(a.v, b.v) && equalLines(a.api, b.api) {
+	// answers given to different users are not compared (the user of the base is view state)
+	// (nor is a snapshot taken without them)
+	ansSame := a.ans == nil || b.ans == nil || a.who != b.who || equalLines(a.ans, b.ans)
+
+	if equalLines(a.v, b.v) && equalLines(a.api, b.api) && ansSame {
 		return "", ""
 	}
 
@@ -684,6 +884,11 @@ func changeClass(a, b snap) (class, diff string) {
 		}
 	}
 
+	// nodes and attributes are what they were, and yet the base answers its readers otherwise
+	if len(set) == 0 && !ansSame {
+		set["answers"] = true
+	}
+
 	var cl []string
 	for c := range set {
 		cl = append(cl, c)
@@ -698,6 +903,14 @@ func changeClass(a, b snap) (class, diff string) {
 		}
 
 		d += "api: " + ad
+	}
+
+	if !ansSame {
+		if d != "" {
+			d += " || "
+		}
+
+		d += "answers: " + fsx.DiffLines(a.ans, b.ans)
 	}
 
 	return strings.Join(cl, "+"), d
@@ -880,14 +1093,23 @@ func (s *sys) Step(op int) bfs.StepResult {
 	variant := variantOf(twHelperOrNil(twHelper), s.win, o)
 
 	// --- snapshot before
+	ask := s.tier == "thorough" || s.lends(o)
+
 	before := s.lastSnap
 	if !s.haveSnap {
 		var k, msg string
 
-		before, k, msg = s.snapshot()
+		before, k, msg = s.snapshot(ask)
 		if k != "" {
 			return bfs.StepResult{Changed: true, Broken: true, Key: "BROKEN|snapshot-" + k, Outcome: "harness/snapshot-" + k,
 				Viols: []bfs.Viol{s.viol(o, via, variant, strings.ToLower(k), "snapshot of the base before the call: "+panicClass(msg), detail{Observed: msg})}}
+		}
+	}
+
+	if ask {
+		if k, msg := s.askNow(&before); k != "" {
+			return bfs.StepResult{Changed: true, Broken: true, Key: "BROKEN|snapshot-" + k, Outcome: "harness/snapshot-" + k,
+				Viols: []bfs.Viol{s.viol(o, via, variant, strings.ToLower(k), "answers of the base before the call: "+panicClass(msg), detail{Observed: msg})}}
 		}
 	}
 
@@ -927,7 +1149,7 @@ func (s *sys) Step(op int) bfs.StepResult {
 	}
 
 	// --- oracle 1: the base is identical before and after
-	after, k, msg := s.snapshot()
+	after, k, msg := s.snapshot(ask)
 	if k != "" {
 		// the base cannot even be dumped any more
 		if !poisoned {
@@ -946,7 +1168,7 @@ func (s *sys) Step(op int) bfs.StepResult {
 	if what, diff := changeClass(before, after); what != "" {
 		baseChanged = true
 
-		add("base-changed", what, detail{Expected: "base snapshot (tree, bytes, modes, owners, link counts, mtimes) identical before and after the call", Observed: "changed: " + what, BaseDiff: diff})
+		add("base-changed", what, detail{Expected: "base snapshot (tree, bytes, modes, owners, link counts, mtimes; where asked, the listings the base gives its own readers) identical before and after the call", Observed: "changed: " + what, BaseDiff: diff})
 	}
 
 	// --- twin call
@@ -1111,12 +1333,23 @@ func (s *sys) Step(op int) bfs.StepResult {
 		outc = via + "." + o.Method + "/refused:" + real.Kind + viewNote
 	}
 
+	// counted apart by the parent (main.go): slices returned through the wrapper and
+	// written over, calls around which the base was asked for its answers
+	tail := ""
+	if real.Lent > 0 {
+		tail += " lent=" + strconv.Itoa(real.Lent)
+	}
+
+	if ask {
+		tail += " asked=1"
+	}
+
 	twinPoisoned := hasTwin && (twin.Kind == "PANIC" || twin.Kind == "DEADLOCK")
 
 	if baseChanged {
 		s.haveSnap = false
 
-		return bfs.StepResult{Changed: true, Broken: true, Key: "BROKEN|" + hash(strings.Join(after.v, "\n")), Outcome: outc + "+base-changed", Viols: viols}
+		return bfs.StepResult{Changed: true, Broken: true, Key: "BROKEN|" + hash(strings.Join(after.v, "\n")), Outcome: outc + "+base-changed" + tail, Viols: viols}
 	}
 
 	if notRefused {
@@ -1125,14 +1358,14 @@ func (s *sys) Step(op int) bfs.StepResult {
 		// futures of this state are not explored
 		s.haveSnap = false
 
-		return bfs.StepResult{Changed: true, Broken: true, Key: "BROKEN|not-refused|" + s.key(after), Outcome: outc + "+not-refused", Viols: viols}
+		return bfs.StepResult{Changed: true, Broken: true, Key: "BROKEN|not-refused|" + s.key(after), Outcome: outc + "+not-refused" + tail, Viols: viols}
 	}
 
 	if desync {
 		// the twin can no longer serve as reference: stop here, no verdict
 		s.haveSnap = false
 
-		return bfs.StepResult{Changed: true, Broken: true, Key: "BROKEN|desync|" + viewState(s.base) + "|" + viewState(s.tw), Outcome: outc + "+twin-desync", Viols: viols}
+		return bfs.StepResult{Changed: true, Broken: true, Key: "BROKEN|desync|" + viewState(s.base) + "|" + viewState(s.tw), Outcome: outc + "+twin-desync" + tail, Viols: viols}
 	}
 
 	key := s.key(after)
@@ -1142,7 +1375,7 @@ func (s *sys) Step(op int) bfs.StepResult {
 
 	return bfs.StepResult{
 		Changed: changed, Key: key, Broken: false, Rebuild: poisoned || twinPoisoned,
-		Outcome: outc, Viols: viols,
+		Outcome: outc + tail, Viols: viols,
 	}
 }
 
